@@ -27,6 +27,9 @@
 (* Event "cycle": 2-5 reactions held in a Reactions container whose        *)
 (* scaled / reversed combination is a net reaction or nothing: the same    *)
 (* combination of their changes equals the net change (HessCycle).         *)
+(* Event "edit": second use of one reaction object after an in-place edit  *)
+(* of a public attribute (EditedEqualsFresh); the edited object is also    *)
+(* judged by an ordinary "quant" event against its CURRENT coefficients.   *)
 (* Event "refuse": a reaction WITHOUT a transition state; g = the getters  *)
 (* called with act = True (or asked for the transition state), out = what  *)
 (* each did ("raised" | "value").  A reaction without a transition state   *)
@@ -172,8 +175,19 @@ CycleClauses(e) ==
       \cup Fail(CloseIn(SumSeq(terms), e.net, scale, 6), "HessCycle")
       \cup Fail(e.kb = e.ka, "CallerKwargsUntouched")
 
+\* ---- second use: a reaction evaluated, edited in place (e.what), evaluated again (a) must answer like a
+\* fresh reaction built from its current public attributes (b); a, b = <<states r, p, (t), changes>>
+EditClauses(e) ==
+   LET all == {e.a[i] : i \in 1..Len(e.a)} \cup {e.b[i] : i \in 1..Len(e.b)}
+   IN Fail(/\ Len(e.a) = Len(e.b)
+           /\ \A i \in 1..Len(e.a) : IF e.kind = "sum" THEN CloseIn(e.a[i], e.b[i], all, 7)
+                                                        ELSE Close(e.a[i], e.b[i], 7),
+           "EditedEqualsFresh")
+      \cup Fail(e.kb = e.ka, "CallerKwargsUntouched")
+
 Clauses(e) ==
    CASE e.ev = "quant" -> QuantClauses(e)
+     [] e.ev = "edit" -> EditClauses(e)
      [] e.ev = "cycle" -> CycleClauses(e)
      [] e.ev = "refuse" -> RefuseClauses(e)
      [] e.ev = "iso" -> IsoClauses(e)
